@@ -146,6 +146,22 @@ def replay_case(arg):
                 fail('Differential', 'dpsi', dict(model=name, got=np.asarray(dpsi).tolist(), expected=exp_dpsi.tolist()))
             if np.asarray(dth).shape != exp_dtheta.shape or not interp.close(np.asarray(dth, dtype=float), exp_dtheta):
                 fail('Differential', 'dtheta', dict(model=name, got=np.asarray(dth).tolist(), expected=exp_dtheta.tolist()))
+            # ---- sampling: an integer seed and the generator made from it give the same draws, and the individuals of one call
+            # are drawn independently (no two rows share their standardised noise)
+            if cls in ('GaussianModel', 'LogNormalModel') and ni >= 2:
+                with warnings.catch_warnings():
+                    warnings.simplefilter('ignore')
+                    s_int = np.asarray(cpm.sample(full.copy(), n_samples=ni, seed=5, covariates=cv.copy()), dtype=float)
+                    s_gen = np.asarray(cpm.sample(full.copy(), n_samples=ni, seed=np.random.default_rng(5), covariates=cv.copy()),
+                                       dtype=float)
+                cnt['covariate_sampler_calls'] = cnt.get('covariate_sampler_calls', 0) + 1
+                if s_int.shape != s_gen.shape or not np.array_equal(s_int, s_gen):
+                    fail('Differential', 'sample_int_seed_vs_generator', dict(model=name))
+                if cen:
+                    zz = (np.log(s_int) if cls == 'LogNormalModel' else s_int)
+                    zz = (zz - vt[:, 0, :]) / vt[:, 1, :]
+                    if any(np.allclose(zz[a_], zz[b_]) for a_ in range(ni) for b_ in range(a_ + 1, ni)):
+                        fail('Differential', 'individuals_share_their_noise', dict(model=name, standardised=zz.tolist()))
             # ---- outside the support for ONE individual only: the covariates drive a selected scale parameter of the first
             # individual below zero; the underlying model scores that individual -inf, so must the covariate model (value
             # and score returned with the sensitivities)
